@@ -5,7 +5,7 @@ import ast
 
 from sa.engine.facts import Bad, F
 from sa.engine.pattern import P, find_all, u, dump
-from sa.engine.source import norm
+from sa.engine.source import norm, own_walk
 from .common import A, checkpoint_typestate, is_current_task, queue_ends, writer_table, dominates_all_exits
 
 EXPLANATION = ("Semaphore / CapacityLimiter (asyncio backend): every grant site is guarded by a free-capacity fact that survives to the "
@@ -94,6 +94,28 @@ def check(ctx):
             regs=[f"self._wait_queue[{bt}] = $E"],
             undos=[f"self.release_on_behalf_of({bt})", f"self._wait_queue.pop({bt}, None)", "self.release()"],
             blocks=["await $E.wait()"], instance="CapacityLimiter.acquire_on_behalf_of", native=True)
+        # R10-e: an undo gives back only a token that *this call* was granted: the direct attempt can also fail with the errors the
+        # non-blocking acquire raises itself (a borrower that already holds a token gets RuntimeError) - a handler that releases on
+        # those gives away the token the borrower legitimately holds
+        nw = L["acquire_on_behalf_of_nowait"]
+        own_raises = {ast.unparse(r.exc.func if isinstance(r.exc, ast.Call) else r.exc) for r in own_walk(nw.node) if isinstance(r, ast.Raise) and r.exc is not None}
+
+        def raises_of(stmt, own_raises=own_raises, bt=bt):
+            return set(own_raises) if any(isinstance(x, ast.Call) and norm(x) == f"self.acquire_on_behalf_of_nowait({bt})" for x in ast.walk(stmt)) else set()
+
+        def step_g(st, e, c):
+            if e == "grant":
+                return st if c.is_exc else True
+            if e == "woken":
+                return st if c.is_exc else True       # (a completed wait means a releaser made us a borrower)
+            if e == "undo" and not st:
+                return Bad("a token is released for the borrower although this call was never granted one (the failure came from the acquire itself): "
+                           "a borrower that already held a token loses it")
+            return st
+
+        ctx.paths("R10-e", f, [("grant", f"self.acquire_on_behalf_of_nowait({bt})"), ("woken", "await $E.wait()"),
+                               ("undo", [f"self.release_on_behalf_of({bt})", "self.release()"])],
+                  step_g, False, None, native=True, extra_raises=raises_of, instance="an undo gives back only what this call acquired")
         # R10-e: the undo of the fast path releases the same borrower
         undo_sites = ctx.sites(f, "self.release()") + ctx.sites(f, "self.release_on_behalf_of($X)")
         ctx.need("R10-e", f, "undo of an interrupted fast-path acquire", len(undo_sites), 1)
@@ -386,3 +408,16 @@ def check(ctx):
     p_ = [x.arg for x in sinit.node.args.args][1]
     for pat_ in (f"self._value = {p_}", "self._max_value = max_value"):
         dominates_all_exits(ctx, "R10-j", sinit, pat_, f"the backend semaphore starts from the validated arguments (`{pat_}`)")
+
+    # ---- R10-k the total is an int or +inf, never NaN and never negative (every capacity comparison `len(borrowers) < total` is false
+    # against NaN: nothing is ever refused and no waiter is ever woken): where `_total_tokens` is stored from a caller's value, the
+    # facts on the path say so.  Both setters (backend and adapter) are checked; the constructors go through them.
+    n_tt = 0
+    for q_, m_ in (("CapacityLimiter.total_tokens@setter", A), ("CapacityLimiterAdapter.total_tokens@setter", _SYNC)):
+        f_ = ctx.fn(q_, m_)
+        vp = f_.node.args.args[1].arg
+        for st_, _ in ctx.sites(f_, f"self._total_tokens = {vp}") + ctx.sites(f_, f"self._limiter.total_tokens = {vp}") + ctx.sites(f_, f"self._internal_limiter.total_tokens = {vp}"):
+            n_tt += 1
+            ctx.require_at("R10-k", f_, st_, [[f"isinstance({vp}, int)", f"not {vp} < 0"], [f"math.isinf({vp})", f"not {vp} < 0"], [f"{vp} == math.inf"]],
+                           instance=f"{q_.split('@')[0]}: the stored total is a non-negative int or +inf (NaN passes neither test)", what="store of the total")
+    ctx.floor("R10-k", "stores of a caller-supplied total", n_tt, 2)
